@@ -96,6 +96,10 @@ def call(f, *a, **k):
         return ("raises", type(e).__name__)
 
 
+def _fresh(x):
+    return "".join(list(x)) if isinstance(x, str) else x
+
+
 class _Str(str):
     pass
 
@@ -120,7 +124,9 @@ def run_grid(arg, r):
                 for enc in ENC:
                     r.evaluations += 1
                     r.transitions += 1
-                    got = call(_SF.selfies_to_encoding, s, dict(stoi), pad_to_len=pad, enc_type=enc)
+                    # arguments are passed as freshly built objects (equal to, but not identical with, any literal in the library:
+                    # strings arriving from files, JSON or the command line are never interned)
+                    got = call(_SF.selfies_to_encoding, s, {_fresh(k): v for k, v in stoi.items()}, pad_to_len=pad, enc_type=_fresh(enc))
                     case = {"kind": "encode", "selfies": s, "vocab": stoi, "pad": pad, "enc_type": enc}
                     if enc not in ("label", "one_hot", "both") or exp is None:
                         if got[0] != "raises":
@@ -164,7 +170,7 @@ def run_grid(arg, r):
                 for enc, data in (("label", exp[0]), ("one_hot", exp[1])):
                     r.evaluations += 1
                     got = call(_SF.encoding_to_selfies, [list(x) if isinstance(x, list) else x for x in data],
-                               dict(itos), enc_type=enc)
+                               {i: _fresh(k) for i, k in itos.items()}, enc_type=_fresh(enc))
                     if got != ("ok", padded):
                         r.violation("decode:wrong-" + enc, {"kind": "decode", "data": data, "vocab": stoi, "enc_type": enc},
                                     "got %r expected %r" % (got, padded))
